@@ -1,7 +1,8 @@
 package quic
 
 //vx:pkg github.com/refraction-networking/uquic
-//vx:entry Harness_C03_crypto Harness_C03_crypto_send
+//vx:entry Harness_C03_crypto Harness_C03_crypto_send Harness_C03_crypto_late_retransmission
+//vx:reach Harness_C03_crypto_late_retransmission C03.crypto.delivered C03.crypto.finished C03.crypto.after-finish-rejected C03.crypto.after-finish-ignored
 //vx:param quick frames=2
 //vx:param thorough frames=3
 //vx:param all maxdepth=2000
@@ -21,9 +22,15 @@ import (
 // any point. Delivered bytes are exactly the original ones, contiguously, once; data beyond the crypto buffer
 // limit is CRYPTO_BUFFER_EXCEEDED; the level cannot be finished with undelivered data buffered; after it
 // is finished new data is a PROTOCOL_VIOLATION and retransmissions are ignored.
-func Harness_C03_crypto() {
+func Harness_C03_crypto() { vxCryptoHarness(vx_param("frames"), false) }
+
+// Directed history for retransmissions that arrive after the level was finished: two frames in any order and
+// overlap, each followed by a read, then Finish, then a third frame: it is ignored iff it ends at or below
+// the highest end offset ever received (not the last one), and is a PROTOCOL_VIOLATION otherwise.
+func Harness_C03_crypto_late_retransmission() { vxCryptoHarness(3, true) }
+
+func vxCryptoHarness(k int, directed bool) {
 	s := newCryptoStream()
-	k := vx_param("frames")
 	next := protocol.ByteCount(0)
 	highest := protocol.ByteCount(0)  // largest end offset seen
 	highData := protocol.ByteCount(0) // largest end offset of a non-empty frame
@@ -45,7 +52,11 @@ func Harness_C03_crypto() {
 		}
 	}
 	for i := 0; i < k; i++ {
-		if !finished && vx_bool("finish") {
+		finishNow := i == k-1
+		if !directed {
+			finishNow = !finished && vx_bool("finish")
+		}
+		if finishNow {
 			err := s.Finish()
 			// ghost: undelivered contiguous data at the read position?
 			if err != nil {
@@ -88,7 +99,7 @@ func Harness_C03_crypto() {
 				highData = end
 			}
 		}
-		if vx_bool("readNow") {
+		if directed || vx_bool("readNow") {
 			read()
 		}
 	}
